@@ -446,4 +446,37 @@ def NoRawByteAlias (base ours theirs : Table) : Prop :=
 
 example : rowOk fOurs.sch [none, some (.int 11)] = true := by decide
 
+/-- the specification on identical sides: that side, no conflict -/
+theorem specKey_same (s : Schema) (b l : Option Row) : specKey s b l l = (l, false) := by
+  unfold specKey
+  by_cases h1 : l = b
+  · simp [h1]
+  · simp [h1]
+
+/-- **merge_same_sides.**  Merging a branch with an identical copy of itself (both sides made the
+same changes to every row) succeeds without conflicts and yields exactly that table — merge is
+idempotent on equal inputs, whatever the base. -/
+theorem merge_same_sides (s : Schema) (hd : idsDistinct s = true) (base ours : Rows)
+    (hb : tableOk ⟨s, base⟩ = true) (ho : tableOk ⟨s, ours⟩ = true) :
+    ∃ m, mergeTable ⟨s, base⟩ ⟨s, ours⟩ ⟨s, ours⟩ = .ok m ∧ m.sch = s ∧
+      ∀ k, get m.rows k = get ours k ∧ k ∉ m.conflicts := by
+  obtain ⟨m, hm, hs, hspec⟩ := rowmerge_spec s hd base ours ours hb ho ho
+  refine ⟨m, hm, hs, fun k => ?_⟩
+  have := hspec k
+  rw [specKey_same] at this
+  simp only [Prod.ext_iff] at this
+  exact ⟨this.1, by simpa using this.2⟩
+
+/-- **merge_with_base.**  Merging in a branch that has not changed anything since the base keeps
+ours exactly, without conflicts. -/
+theorem merge_with_base (s : Schema) (hd : idsDistinct s = true) (base ours : Rows)
+    (hb : tableOk ⟨s, base⟩ = true) (ho : tableOk ⟨s, ours⟩ = true) :
+    ∃ m, mergeTable ⟨s, base⟩ ⟨s, ours⟩ ⟨s, base⟩ = .ok m ∧ m.sch = s ∧
+      ∀ k, get m.rows k = get ours k ∧ k ∉ m.conflicts := by
+  obtain ⟨m, hm, hs, hspec⟩ := rowmerge_spec s hd base ours base hb ho hb
+  refine ⟨m, hm, hs, fun k => ?_⟩
+  have := hspec k
+  simp only [specKey, if_true, Prod.ext_iff] at this
+  exact ⟨this.1, by simpa using this.2⟩
+
 end DoltVerif.C29
